@@ -47,7 +47,7 @@ func realBinary(run *ev.Run, dir string) {
 		return
 	}
 	run.Floor("binary_kills", 2)
-	run.Units("binary", run.Pick(2, 16), 8, func(unit int64, r *rand.Rand) { binarySession(run, unit, r, dir, bin, tlsd) })
+	run.Units("binary", run.Pick(3, 18), 8, func(unit int64, r *rand.Rand) { binarySession(run, unit, r, dir, bin, tlsd) })
 }
 
 func freePort() string {
@@ -205,7 +205,91 @@ func binarySession(run *ev.Run, unit int64, r *rand.Rand, dir, bin string, tlsd 
 	lastAck := map[*gen.Log]string{} // text of the last acknowledged checkpoint
 	var trace []string
 	kills := run.Pick(3, 5)
-	for k := 0; k < kills; k++ {
+	concurrentMode := unit%3 == 2 // one poster per log, requests of different logs in flight together
+	served2 := func(lg *gen.Log) (int, []byte) { return served(lg) }
+	for k := 0; k < kills && concurrentMode; k++ {
+		type fl struct {
+			text string
+			nx   uint64
+		}
+		infl := make([]fl, len(w.U.Logs))
+		var mu sync.Mutex
+		var wg sync.WaitGroup
+		stop := make(chan struct{})
+		for li, l := range w.U.Logs {
+			wg.Add(1)
+			go func(li int, l *gen.Log) {
+				defer wg.Done()
+				for {
+					select {
+					case <-stop:
+						return
+					default:
+					}
+					mu.Lock()
+					c := cur[l]
+					mu.Unlock()
+					nx := c + 1
+					cp := l.Honest(0, nx)
+					mu.Lock()
+					infl[li] = fl{refnoteText(cp), nx}
+					mu.Unlock()
+					code, _, _, err := be.Post(body(c, l.Branches[0].Consistency(c, nx), cp), 10*time.Second)
+					if err != nil || code != 200 {
+						return // the process is gone (or answers no more)
+					}
+					mu.Lock()
+					cur[l], lastAck[l] = nx, refnoteText(cp)
+					infl[li] = fl{}
+					mu.Unlock()
+					run.Count("binary_acked_updates")
+					run.Count("binary_acked_updates_concurrent")
+				}
+			}(li, l)
+		}
+		time.Sleep(time.Duration(5+r.IntN(40)) * time.Millisecond)
+		killGroup()
+		close(stop)
+		wg.Wait()
+		be.Close()
+		run.Count("evaluations")
+		run.Count("binary_kills")
+		run.Count("binary_kills_with_requests_of_several_logs_in_flight")
+		trace = append(trace, fmt.Sprintf("KILL with one poster per log running (sizes acknowledged so far: %v)", func() []uint64 {
+			var o []uint64
+			for _, l := range w.U.Logs {
+				o = append(o, cur[l])
+			}
+			return o
+		}()))
+		straceN = 0
+		be, err = start()
+		if err != nil {
+			run.Violate("binary_does_not_restart", "after the kill the binary did not come back on the same database: "+err.Error(), unit, map[string]any{"trace": trace, "output": tail()})
+			return
+		}
+		for li, lg := range w.U.Logs {
+			sc, raw := served2(lg)
+			detail := map[string]any{"trace": trace, "served": string(raw), "status": sc, "last_acknowledged": lastAck[lg], "in_flight": infl[li].text, "output": tail()}
+			switch {
+			case sc == 404 && lastAck[lg] == "":
+			case sc == 200 && lastAck[lg] != "" && refnoteText(raw) == lastAck[lg]:
+				run.Count("binary_state_old")
+			case sc == 200 && infl[li].text != "" && refnoteText(raw) == infl[li].text:
+				run.Count("binary_state_new_unacknowledged")
+				cur[lg], lastAck[lg] = infl[li].nx, infl[li].text
+			default:
+				run.Violate("binary_state_neither_old_nor_new;concurrent_posters", fmt.Sprintf("after a kill with requests of several logs in flight and a restart the binary serves status %d / a checkpoint that is neither the last acknowledged one nor the one in flight for this log", sc), unit, detail)
+				return
+			}
+			if sc == 200 && !w.Complete(lg, raw) {
+				run.Violate("binary_serves_incomplete_checkpoint", "after kill and restart the served checkpoint is not validly signed by the log and by both witness schemes", unit, detail)
+				return
+			}
+		}
+		run.Distinct("nontrivial", fmt.Sprintf("binary/concurrent/kill%d", k))
+	}
+	for k := 0; k < kills && !concurrentMode; k++ {
 		// some acknowledged updates
 		pre := r.IntN(5)
 		if straceN > 0 {
